@@ -34,6 +34,8 @@ var c07Shapes = []chainShape{
 	{"leaf-under-intermediate-in-layout", true},
 	{"leaf-under-intermediate-from-caller", true},
 	{"leaf-under-two-intermediates(layout+caller)", true},
+	{"leaf-under-two-intermediates-bundled-in-one-blob-from-the-caller", true},
+	{"leaf-under-two-intermediates-bundled-in-one-layout-entry", true},
 	{"intermediate-missing", false},
 	{"leaf-expired", false},
 	{"leaf-not-yet-valid", false},
@@ -85,6 +87,14 @@ func (p *c07PKI) issue(shape string, spec gen.CertSpec, k gen.KeyPair) (string, 
 		issuer, caller = p.inter, [][]byte{[]byte(p.inter.PEM)}
 	case "leaf-under-two-intermediates(layout+caller)":
 		issuer, layoutInter, caller = p.inter2, []*gen.CA{p.inter}, [][]byte{[]byte(p.inter2.PEM)}
+	case "leaf-under-two-intermediates-bundled-in-one-blob-from-the-caller":
+		// a PEM bundle: several certificates in one blob, the leaf's issuer last
+		issuer, caller = p.inter2, [][]byte{[]byte(p.inter.PEM + p.inter2.PEM)}
+	case "leaf-under-two-intermediates-bundled-in-one-layout-entry":
+		bundle := *p.inter
+		bundle.Key.KeyVal.Certificate = p.inter.PEM + p.inter2.PEM
+		bundle.PEM = bundle.Key.KeyVal.Certificate
+		issuer, layoutInter = p.inter2, []*gen.CA{&bundle}
 	case "intermediate-missing":
 		issuer = p.inter
 	case "leaf-expired":
@@ -773,7 +783,7 @@ func init() {
 	core.Register(&core.Property{
 		ID:    "C07",
 		Level: "exploration",
-		Rule: "12 chain shapes (leaf under root / intermediate in layout / intermediate from caller / two intermediates split between layout and caller; intermediate missing; leaf expired / not yet valid; intermediate expired; foreign root without and with its intermediate passed by the caller; issuer without CA flag; self-signed leaf) x (wildcard constraint, no constraints); each of the 5 attributes varied alone over 22 (certificate values, constraint list) forms (wildcard, empty list / nil / [\"\"], exact, permuted, subset, superset, disjoint, listed-but-absent, case differs; duplicates and '*' among others: abstain) on valid and invalid chains; pairs of attributes (quick: a diagonal, thorough: all pairs x all judged forms); 1-3 constraints with the matching one at each position, none matching, and every attribute satisfied only by a different constraint; root constraints (one-directional facts only); a layout without root CAs while the verifying host's own trust store (simulated with SSL_CERT_FILE) trusts the certificate's CA; one certificate signing links for two steps of which it satisfies only one (both layout orders). A third of the end-to-end observations add a listed key whose link file is present but altered after signing. A certificate functionary inside a sublayout whose issuing intermediate comes from the caller only (with and without it, both entry points). Near misses of the validity period (not valid for two more minutes / expired two minutes ago: rejected). Clock histories per pair of entry points: certificate issued after an earlier verification in the process (accept) / expired since an earlier verification (reject), decided by the wall-clock bracket of the deciding call. Each case is observed through Step.CheckCertConstraints, CertificateConstraint.Check and InTotoVerify / InTotoVerifyWithDirectory (alternating, with and without a parameter dictionary) on a link signed by the certificate's key. " +
+		Rule: "14 chain shapes (leaf under root / intermediate in layout / intermediate from caller / two intermediates split between layout and caller / bundled in one PEM blob from the caller / bundled in one layout entry; intermediate missing; leaf expired / not yet valid; intermediate expired; foreign root without and with its intermediate passed by the caller; issuer without CA flag; self-signed leaf) x (wildcard constraint, no constraints); each of the 5 attributes varied alone over 22 (certificate values, constraint list) forms (wildcard, empty list / nil / [\"\"], exact, permuted, subset, superset, disjoint, listed-but-absent, case differs; duplicates and '*' among others: abstain) on valid and invalid chains; pairs of attributes (quick: a diagonal, thorough: all pairs x all judged forms); 1-3 constraints with the matching one at each position, none matching, and every attribute satisfied only by a different constraint; root constraints (one-directional facts only); a layout without root CAs while the verifying host's own trust store (simulated with SSL_CERT_FILE) trusts the certificate's CA; one certificate signing links for two steps of which it satisfies only one (both layout orders). A third of the end-to-end observations add a listed key whose link file is present but altered after signing. A certificate functionary inside a sublayout whose issuing intermediate comes from the caller only (with and without it, both entry points). Near misses of the validity period (not valid for two more minutes / expired two minutes ago: rejected). Clock histories per pair of entry points: certificate issued after an earlier verification in the process (accept) / expired since an earlier verification (reject), decided by the wall-clock bracket of the deciding call. Each case is observed through Step.CheckCertConstraints, CertificateConstraint.Check and InTotoVerify / InTotoVerifyWithDirectory (alternating, with and without a parameter dictionary) on a link signed by the certificate's key. " +
 			"non-trivial = the certificate parses and the step has >=1 constraint, or the no-constraint class; distinct = (label, chain shape)",
 		Assumptions: []string{"duplicated values on either side, lists containing '*' among other entries and non-wildcard root lists that contain the chain's root are not judged", "validity windows are >= 1 day away from now, except 'valid' (+-1 h / +24 h)", "certificate-signed links use the legacy wrapper (DSSE cannot carry certificates: known finding F6)"},
 		Workers:     func(string) int { return 16 },
